@@ -248,6 +248,7 @@ func c02corpus(r *report.Run) []cItem {
 	fu := corpusFusion()
 	items = append(items, fu...)
 	r.Set("items_fusion_packages", len(fu))
+	items = append(items, corpusWide(cWideWidths(thorough))...)
 	n4 := corpusC04(thorough, 6)
 	items = append(items, n4...)
 	maxN6, fl6, maxN8, d11, f12, l18 := 5, 2, 4, 3, 40, 4
@@ -289,7 +290,7 @@ func c02observeAll(items []cItem, optimize bool, dumps []map[string]int, deadlin
 }
 
 func c02run(r *report.Run) {
-	r.Rule("every corpus program (harvested test-table inputs and file trees; fusion-window templates = 22 expression and 22 statement windows x operand types x 13 + 12 syntactic neighbourhoods incl. near misses; all C04 numeric forms with spread operands; the C06, C08, C11, C12, C18 corpora) executed by the real Load/Eval/Call with the optimizer switch off and on; non-trivial = program whose optimized code contains at least one fused opcode")
+	r.Rule("every corpus program (harvested test-table inputs and file trees; fusion-window templates = 22 expression and 22 statement windows x operand types x 13 + 12 syntactic neighbourhoods incl. near misses; wide-frame programs; all C04 numeric forms with spread operands; the C06, C08, C11, C12, C18 corpora) executed by the real Load/Eval/Call with the optimizer switch off and on; non-trivial = program whose optimized code contains at least one fused opcode")
 	r.Assume("the optimizer switch makes compiler.optimize the identity (the !c.Optimize branch); each run asserts no fused opcode appears with the switch off and every fused opcode appears with it on", "inputs mentioning rand./time./os. are excluded (nondeterministic)", "values whose text contains addresses (functions) are compared by type only")
 	items := c02corpus(r)
 	r.Set("corpus_items", len(items))
@@ -316,9 +317,10 @@ func c02run(r *report.Run) {
 		if fusedHere > 0 {
 			r.Nontrivial(items[i].Name)
 		}
-		if strings.HasPrefix(items[i].Name, "fusion/") && (len(off[i]) <= 1 || len(on[i]) <= 1) {
-			// a template package that does not even load hides all its functions from the comparison
-			r.HarnessError("fusion-window package %s does not load: off: %s on: %s", items[i].Name, trunc(strings.Join(off[i], " | "), 300), trunc(strings.Join(on[i], " | "), 300))
+		if !strings.HasPrefix(items[i].Name, "test-") && !(strings.HasPrefix(off[i][0], "ok") && strings.HasPrefix(on[i][0], "ok")) {
+			// a generated package that does not even load hides all its functions from the comparison: the generators
+			// only emit valid programs, so this is a defect of the harness or of goatlang, never a pass
+			r.HarnessError("generated corpus item %s does not load or run: off: %s on: %s", items[i].Name, trunc(strings.Join(off[i], " | "), 300), trunc(strings.Join(on[i], " | "), 300))
 		}
 		n := len(off[i])
 		if len(on[i]) != n {
